@@ -87,6 +87,7 @@ type c19In struct {
 	LongWords                  [][]byte         // their 2-bit words
 	TB                         *bitmap.TailBitmap
 	Longs                      [][]uint64 // bitmaps whose lengths sit around powers of two (index builders)
+	Sparse                     [][]uint64 // long bitmaps that are all zero except two islands (range scans)
 	Pos                        []int32
 	Subs                       [][]int32
 	Sizes                      []int32
@@ -540,6 +541,15 @@ func c19Build(k int, al alloc) *c19In {
 		}
 		in.Longs = append(in.Longs, al.u64s(lw))
 	}
+	// long SPARSE bitmaps for the functions that scan a range (NextOne, PrevOne, ToArray, Slice): 18..1030
+	// words, all zero except one island near the start and one three words before the end, so a scan crosses
+	// long runs of empty words and the range ends in empty words (a sentinel planted there would be a store)
+	for _, l := range []int{18, 24, 40, 70, 130, 1030} {
+		sp := make([]uint64, l)
+		sp[(k+l)%2] = 1<<63 | uint64(k+1)
+		sp[l-3] = 0x8000000000000001
+		in.Sparse = append(in.Sparse, al.u64s(sp))
+	}
 	in.Pos = al.i32s([]int32{0, 1, 63, 64, 65, int32(100 + k), 191})
 	in.Subs = [][]int32{al.i32s([]int32{0, 63}), al.i32s([]int32{}), al.i32s([]int32{1, 64, int32(65 + k)})}
 	in.Sizes = al.i32s([]int32{64, 3, 130})
@@ -592,6 +602,26 @@ func c19Alphabet() []c19Call {
 		}, true},
 		{"bitmap.NextOne", bits, func(in *c19In, k int) interface{} { return pr(bitmap.NextOne(in.W, int32(k), int32(nb(in)-k%7))) }, true},
 		{"bitmap.PrevOne", bits, func(in *c19In, k int) interface{} { return pr(bitmap.PrevOne(in.W, int32(k%5), int32(k+1))) }, true},
+		{"bitmap.NextOne/sparse", func(in *c19In) int { return len(in.Sparse) * 30 }, func(in *c19In, k int) interface{} {
+			bm := in.Sparse[k/30]
+			n := int32(64 * len(bm))
+			i := []int32{0, 1, 63, 64, 65, 130}[k%30/5]
+			end := []int32{n, n - 1, n - 64, n - 65, n / 2}[k%5]
+			return pr(bitmap.NextOne(bm, i, end))
+		}, false},
+		{"bitmap.PrevOne/sparse", func(in *c19In) int { return len(in.Sparse) * 30 }, func(in *c19In, k int) interface{} {
+			bm := in.Sparse[k/30]
+			n := int32(64 * len(bm))
+			i := []int32{0, 1, 63, 64, 65, 130}[k%30/5]
+			end := []int32{n, n - 1, n - 64, n - 65, n / 2}[k%5]
+			return pr(bitmap.PrevOne(bm, i, end))
+		}, false},
+		{"bitmap.ToArray/sparse", func(in *c19In) int { return len(in.Sparse) }, func(in *c19In, k int) interface{} { return pr(bitmap.ToArray(in.Sparse[k])) }, false},
+		{"bitmap.Slice/sparse", func(in *c19In) int { return len(in.Sparse) * 3 }, func(in *c19In, k int) interface{} {
+			bm := in.Sparse[k/3]
+			n := int32(64 * len(bm))
+			return pr(bitmap.Slice(bm, []int32{0, 65, 130}[k%3], n-int32(k%3)*63))
+		}, false},
 		{"bitmap.Slice", func(in *c19In) int { return nb(in) / 5 }, func(in *c19In, k int) interface{} {
 			to := 5*k + 70
 			if to > nb(in) {
